@@ -23,6 +23,7 @@ func main() {
 		sh.Report(r, st)
 		if r.Want("arrivals") {
 			arrivals(r)
+			modeIndependence(r)
 		}
 		r.Floor(int64(r.Pick(400, 8000)), int64(r.Pick(100, 2000)))
 	})
